@@ -475,7 +475,19 @@ func (p *queryPlan) addSpecifiedData(ctx context.Context, r table.Row, cls *sema
 	}
 
 	p.tbl.AddBindings(tbl.Bindings())
-	if tbl.NumRows() == 0 && cls.Optional {
+	matched := false
+	for _, nr := range tbl.Rows() {
+		// The clause could not always be specialized with the values of the row
+		// (e.g. a literal bound where a node is required, or a binding shared
+		// through an ID, TYPE or AT extraction), so the fetched rows may disagree
+		// with the row on the bindings they share.
+		if !compatibleRows(r, nr) {
+			continue
+		}
+		matched = true
+		p.tbl.AddRow(table.MergeRows([]table.Row{r, nr}))
+	}
+	if !matched && cls.Optional {
 		nr := make(table.Row)
 		for _, k := range tbl.Bindings() {
 			if _, ok := r[k]; !ok {
@@ -483,12 +495,49 @@ func (p *queryPlan) addSpecifiedData(ctx context.Context, r table.Row, cls *sema
 			}
 		}
 		p.tbl.AddRow(table.MergeRows([]table.Row{r, nr}))
-		return nil
-	}
-	for _, nr := range tbl.Rows() {
-		p.tbl.AddRow(table.MergeRows([]table.Row{r, nr}))
 	}
 	return nil
+}
+
+// compatibleRows returns true if both rows hold equal values for all the
+// bindings they share.
+func compatibleRows(r, nr table.Row) bool {
+	for k, v := range nr {
+		if o, ok := r[k]; ok && !equalCells(o, v) {
+			return false
+		}
+	}
+	return true
+}
+
+// equalCells returns true if both cells box the same kind of value and the
+// values are equal; time anchors are compared as instants.
+func equalCells(c1, c2 *table.Cell) bool {
+	if c1 == nil || c2 == nil {
+		return c1 == c2
+	}
+	switch {
+	case c1.S != nil || c2.S != nil:
+		return c1.S != nil && c2.S != nil && *c1.S == *c2.S
+	case c1.N != nil || c2.N != nil:
+		return c1.N != nil && c2.N != nil && c1.N.Type().String() == c2.N.Type().String() && c1.N.ID().String() == c2.N.ID().String()
+	case c1.P != nil || c2.P != nil:
+		if c1.P == nil || c2.P == nil || c1.P.ID() != c2.P.ID() || c1.P.Type() != c2.P.Type() {
+			return false
+		}
+		if c1.P.Type() == predicate.Immutable {
+			return true
+		}
+		t1, err1 := c1.P.TimeAnchor()
+		t2, err2 := c2.P.TimeAnchor()
+		return err1 == nil && err2 == nil && t1.Equal(*t2)
+	case c1.L != nil || c2.L != nil:
+		return c1.L != nil && c2.L != nil && c1.L.Type() == c2.L.Type() && c1.L.String() == c2.L.String()
+	case c1.T != nil || c2.T != nil:
+		return c1.T != nil && c2.T != nil && c1.T.Equal(*c2.T)
+	}
+	// Both cells are empty (<NULL>).
+	return true
 }
 
 // specifyClauseWithTable runs the clause, but it specifies it further based on
